@@ -90,20 +90,44 @@ def _projection(tree):
 
 
 def _project(tree_cell, tree_facet):
+    """CellBasis.project / FacetBasis.project.  Two forms of the subset argument are understood:
+    (old) condense the system assembled over the WHOLE basis to the DOFs of the subset;
+    (new) delegate to a basis RESTRICTED to the subset (with_elements / FacetBasis(facets=...)), i.e. assemble over the
+          subset only — the assembly the theorem C06_projection_on_subset describes."""
     fn = t2.find_def(tree_cell, 'project', 'CellBasis')
     body = [s for s in _body(fn) if not isinstance(s, ast.ImportFrom)]
-    _expect(body[0], 'M, f = self._projection(interp, dtype=dtype)', 'CellBasis.project[0]')
-    _expect(body[1], 'if elements is not None:\n    return solve(*condense(M, f, I=self.get_dofs(elements=elements)))\n'
-                     'elif self.tind is not None:\n    return solve(*condense(M, f, I=self.get_dofs(elements=self.tind)))',
-            'CellBasis.project branches')
-    _expect(body[2], 'return solve(M, f)', 'CellBasis.project whole mesh')
+    tail = ['M, f = self._projection(interp, dtype=dtype)',
+            'if self.tind is not None:\n    return solve(*condense(M, f, I=self.get_dofs(elements=self.tind)))',
+            'return solve(M, f)']
+    srcs = [t2.src(s) for s in body]
+    if len(body) == 3 and srcs[0] == tail[0] and srcs[2] == tail[2] and srcs[1] == (
+            'if elements is not None:\n    return solve(*condense(M, f, I=self.get_dofs(elements=elements)))\n'
+            'elif self.tind is not None:\n    return solve(*condense(M, f, I=self.get_dofs(elements=self.tind)))'):
+        cell_delegates = False
+    elif (len(body) == 4 and srcs[1:] == tail and isinstance(body[0], ast.If) and t2.src(body[0].test) == 'elements is not None'
+          and not body[0].orelse
+          and t2.src(body[0].body[-1]) == 'return self.with_elements(elements).project(self._restrict_interp(interp, ix), dtype=dtype)'):
+        cell_delegates = True
+    else:
+        raise TranslateError('CellBasis.project: ' + repr(srcs)[:400])
     fn = t2.find_def(tree_facet, 'project', 'FacetBasis')
     body = [s for s in _body(fn) if not isinstance(s, ast.ImportFrom)]
-    _expect(body[0], 'M, f = self._projection(interp, dtype=dtype)', 'FacetBasis.project[0]')
-    _expect(body[1], 'if facets is not None:\n    return solve(*condense(M, f, I=self.get_dofs(facets=facets)))', 'FacetBasis.project branch')
-    _expect(body[2], 'return solve(*condense(M, f, I=self.get_dofs(facets=self.find)))', 'FacetBasis.project default')
+    srcs = [t2.src(s) for s in body]
+    last = 'return solve(*condense(M, f, I=self.get_dofs(facets=self.find)))'
+    if srcs == [tail[0], 'if facets is not None:\n    return solve(*condense(M, f, I=self.get_dofs(facets=facets)))', last]:
+        facet_delegates = False
+    elif (len(body) == 3 and srcs[1:] == [tail[0], last] and isinstance(body[0], ast.If) and t2.src(body[0].test) == 'facets is not None'
+          and not body[0].orelse
+          and t2.src(body[0].body[-1]) == 'return fbasis.project(self._restrict_interp(interp, ix[facets]), dtype=dtype)'
+          and any(isinstance(s, ast.Assign) and t2.src(s.targets[0]) == 'fbasis' and 'facets=facets' in t2.src(s.value)
+                  and t2.src(s.value).startswith('type(self)(self.mesh, self.elem') for s in body[0].body)):
+        facet_delegates = True
+    else:
+        raise TranslateError('FacetBasis.project: ' + repr(srcs)[:400])
     return ('Definition gen_project_system (M : list (list (nat * R))) (f : list R) (I : list nat) :=\n'
-            '  condense_call o M (Some f) None (Some I) None.                 (* condense(M, f, I=self.get_dofs(...)) *)')
+            '  condense_call o M (Some f) None (Some I) None.                 (* condense(M, f, I=self.get_dofs(...)) *)\n'
+            f'Definition gen_subset_argument_restricts : bool := {str(cell_delegates and facet_delegates).lower()}.'
+            '   (* project(f, elements= / facets=) assembles over the subset only *)')
 
 
 def translate():
